@@ -30,6 +30,29 @@ theorem getters_observe_state (Γ : CustomEnv) (chk : Bool) (B : Base) (fd : Fie
       eval Γ chk { raw := .int B.W t, index := .int .usize i } e = getterResult Γ fd (gather t (offOf i fd.stride) fd.ranges 0) :=
   eval_getterBody Γ chk B fd t i hB hok hwide hi
 
+/-- **read-back after a history.** Whatever legal writes came before – to this field, to fields overlapping it, to any
+    array element – the field written last reads back exactly the value written, under both profiles (the multi-step form
+    of C02 / C04's "write followed by read is the identity": the receiver of the last write is an arbitrary reachable
+    state, not a freshly wrapped raw value) -/
+theorem readback_after_history (Γ : CustomEnv) (chk : Bool) (B : Base) (hB : B.WF) (steps : List Step) (last : Step)
+    (init t : Nat) (hinit : init < 2 ^ B.internal) (hok : ∀ st ∈ steps ++ [last], st.Ok Γ B)
+    (hrun : Runs Γ chk B init (steps ++ [last]) t) :
+    ∃ e, getterBody B last.fd = some e ∧
+      eval Γ chk { raw := .int B.W t, index := .int .usize last.i } e = getterResult Γ last.fd last.v := by
+  have hl : last.Ok Γ B := hok last (by simp)
+  have ht := runs_unique Γ chk B hB (steps ++ [last]) init t hinit hok hrun
+  obtain ⟨e, he, hev⟩ := eval_getterBody Γ chk B last.fd t last.i hB hl.field_ok hl.wide hl.index
+  refine ⟨e, he, ?_⟩
+  rw [hev, ht]
+  congr 1
+  simp only [List.map_append, List.map_cons, List.map_nil, applyWrites, List.foldl_append, List.foldl_cons, List.foldl_nil,
+    Step.toOp]
+  apply gather_writeSpec
+  · intro r hr
+    exact Nat.le_trans (hl.field_ok.elem_in_bounds hl.index hr) hB.exposed_le
+  · exact hl.disjoint
+  · rw [← totalBits_eq]; exact hl.arg.1
+
 /-- **a write through any accepted field – a list naming a bit twice included – leaves every position its ranges do not
     cover exactly as it was** (the "or its initial value if no write covered it" half of C12 needs no disjointness) -/
 theorem write_keeps_uncovered (Γ : CustomEnv) (chk : Bool) (B : Base) (fd : FieldDef) (raw i : Nat) (fv : Val) (v : Nat)
@@ -70,5 +93,10 @@ theorem stepImm_ok (v : Nat) (hv : v < 2 ^ 12) : (stepImm v).Ok Ex.noTypes (Base
    Ex.imm_disjoint⟩
 example := history_runs Ex.noTypes true (Base.new 32) Ex.wf32 [stepImm 0xABC, stepImm 0x123] 0xFFFFFFFF (by decide)
   (by intro st hst; simp at hst; rcases hst with rfl | rfl <;> exact stepImm_ok _ (by decide))
+/-- after writing `0xFFF` and then `0x001` the immediate reads back `0x001` (the shape of the demonstration of the seeded
+    changes S81 / S87, which break exactly this) -/
+example (t : Nat) (h : Runs Ex.noTypes true (Base.new 32) 0 ([stepImm 0xFFF] ++ [stepImm 0x001]) t) :=
+  readback_after_history Ex.noTypes true (Base.new 32) Ex.wf32 [stepImm 0xFFF] (stepImm 0x001) 0 t (by decide)
+    (by intro st hst; simp at hst; rcases hst with rfl | rfl <;> exact stepImm_ok _ (by decide)) h
 
 end Bb.C12
